@@ -30,7 +30,7 @@ CHECKS = {
                      'enumerated exhaustively; every schedule within the bound must dispatch each fired event exactly once in '
                      'per-thread order and must never leave the loop blocked in its idle wait (untimed, or bounded by a timer: no timeout may be needed) with a non-empty queue',
                 note='trusted: the scheduler (sys.settrace line events, scheduler-aware RLock/Event doubles) and pathex; fall-back idle '
-                     'generator only; P pre-emptions within the stated windows; pre-emption inside one source line is not explored'),
+                     'generator and the control-pipe wake-up of Select/Poll/EPoll (pipe and select/poll/epoll are doubles); P pre-emptions within the stated windows; pre-emption inside one source line is not explored'),
     'C04': dict(engine='pathex', technique=TECH, ref='DESIGN.md 4/C04',
                 text='bounded symbolic execution of the real dispatcher/task/Value code over all combinations of handler shapes '
                      '(return/None/falsy/raise/generators yielding k values or raising at step j) and feedback flags for up to the stated '
